@@ -226,6 +226,13 @@ def ob_equivocation(run, oid):
             got_c = True
         if any(a[0] == "is_some" and a[2] is True and K.mentions_field(a[1][0], "last_slice", "BlockData") for a in atoms) or any(K.mentions_field(x, "last_slice", "BlockData") for a in atoms for x in a[1] if isinstance(x, tuple)):
             got_l = True
+    # ... and for nothing else: Equivocation blames the leader (InvalidBlock). Each site is one of the two cases
+    for (bb, sp), key in K.ordinal_keys(eqs, lambda x: "BlockData::add_shred|equivocation-site"):
+        atoms = G.guard_atoms(b, bb, prog)
+        is_c = any(a[0] == "variant" and a[1][1] == frozenset(["Occupied"]) for a in atoms) and any(a[0] == "eq" and a[2] is False and any(K.mentions_call(x, "ValidatedShred::commitment") for x in a[1]) for a in atoms)
+        is_l = any(K.mentions_field(x, "last_slice", "BlockData") for a in atoms for x in a[1] if isinstance(x, tuple))
+        o.check(is_c or is_l, key + "|justified", "Equivocation only for a conflicting signed commitment or contradictory signed last-slice markers (never for differences in unsigned bytes)", sp,
+                {"guards": G.atoms_show(atoms)[-4:]})
     o.check(got_c, "BlockData::add_shred|equivocation|commitment", "occupied cache entry != this shred's commitment => Equivocation", b.span)
     o.check(got_l, "BlockData::add_shred|equivocation|last-slice", "last-slice marker contradicting the known last slice => Equivocation", b.span)
     for (sbb, ssp) in stores:
